@@ -33,10 +33,11 @@ type c10Case struct {
 	Frag     int    // ws fragments: size of each fragment (<= L)
 	B64      bool
 	Upgraded bool
+	Cut      int // wt: the frame reaches the server in two pieces, the first of this many bytes (0 = in one piece)
 }
 
 func (c c10Case) String() string {
-	return fmt.Sprintf("{L=%d %s rev%d size=%d(%s) decl=%s packets=%d layout=%s frag=%d b64=%v upgraded=%v}", c.L, c.Path, c.Rev, c.Size, c.SizeCls, c.Decl, c.Multi, c.Layout, c.Frag, c.B64, c.Upgraded)
+	return fmt.Sprintf("{L=%d %s rev%d size=%d(%s) decl=%s packets=%d layout=%s frag=%d b64=%v upgraded=%v cut=%d}", c.L, c.Path, c.Rev, c.Size, c.SizeCls, c.Decl, c.Multi, c.Layout, c.Frag, c.B64, c.Upgraded, c.Cut)
 }
 
 func genC10(rt *rapid.T, known bool, col *Collector) c10Case {
@@ -87,6 +88,7 @@ func genC10(rt *rapid.T, known bool, col *Collector) c10Case {
 		}
 	case "wt":
 		c.Layout = rapid.SampledFrom([]string{"min", "min", "form16", "form64", "header-only-64bit"}).Draw(rt, "layout")
+		c.Cut = rapid.SampledFrom([]int{0, 0, 1, 2, 3, 4, 5, 8, 9, 10}).Draw(rt, "cut")
 	}
 	return c
 }
@@ -373,7 +375,13 @@ func runC10(c c10Case) (fail string, stats map[string]bool) {
 			if form == 1 && len(payload) > 65535 {
 				form = 2
 			}
-			s.tc.SendFrameRaw(wtEncodeForm(false, payload, form))
+			raw := wtEncodeForm(false, payload, form)
+			if c.Cut > 0 && c.Cut < len(raw) {
+				if c.Cut < len(raw)-len(payload) {
+					stats["frame-header-split-in-transit"] = true
+				}
+			}
+			s.tc.SendFrameRawCut(raw, c.Cut)
 			Settle()
 			s.tc.Pump()
 			if m := maxDelivered(); int64(m) > c.L {
@@ -433,7 +441,7 @@ func TestC10MaxPayload(t *testing.T) {
 			rt.Fatalf("%v: %s", c, clipStr(res.Leak, 1500))
 		}
 	})
-	col.RequireClasses(t, "413", "delivered", "connection-terminated", "header-only", "fragmented", "within-1-of-limit", "path.polling", "path.jsonp", "path.ws", "path.wt", "decl.lying-big", "decl.lying-small", "after-upgrade")
+	col.RequireClasses(t, "413", "delivered", "connection-terminated", "header-only", "fragmented", "within-1-of-limit", "path.polling", "path.jsonp", "path.ws", "path.wt", "decl.lying-big", "decl.lying-small", "after-upgrade", "frame-header-split-in-transit")
 }
 
 func TestC10ChunkedFinding(t *testing.T) {
